@@ -8,7 +8,7 @@
    call panics or diverges.  Stated for release semantics and transferred to debug builds by
    C05_debug_and_release_alike / C05_debug_histories (proofs/DebugProofs.v). *)
 From IT Require Import Props.
-From IT.proofs Require Import Reach DebugProofs.
+From IT.proofs Require Import StepMonitor Reach DebugProofs.
 
 Theorem C05_checked_exact_reason_atomic : forall ops k x c F, valid_hist false init ops -> let w := reach ops in
   Repr (ar w) F -> usable (ar w) x -> usable (ar w) c ->
@@ -45,7 +45,16 @@ Theorem C05_debug_histories : forall ops, valid_hist true init ops ->
   valid_hist false init ops /\ run true ops init = run false ops init.
 Proof. exact debug_reachable. Qed.
 
+(* the executable step checker that the correspondence run applies to consecutive states observed on
+   the implementation (Monitor.check_step: documented forest operation, outcome vs impossibility,
+   atomicity, frame clauses) is silent on EVERY valid step of the model from every reachable world:
+   it cannot raise an alarm as long as the implementation behaves like the model *)
+Theorem C05_step_monitor_silent : forall ops o, valid_hist false init ops -> valid_op (ar (reach ops)) o ->
+  check_step (ar (reach ops)) o (snd (step false (reach ops) o)) (ar (fst (step false (reach ops) o))) = [].
+Proof. intros ops o H Hv. exact (check_step_silent (reach ops) o (reach_WF ops H) Hv). Qed.
+
 Print Assumptions C05_checked_exact_reason_atomic.
+Print Assumptions C05_step_monitor_silent.
 Print Assumptions C05_debug_and_release_alike.
 Print Assumptions C05_debug_histories.
 Print Assumptions C05_unchecked.
